@@ -355,11 +355,11 @@ Definition life_ok (a : astate) (id : N) (l : lifecycle) : Prop :=
   | LGone _ _ => no_entry a id /\ 1 <= id <= a_next a
   end.
 
-Definition LInv (a : astate) (past : list obs) : Prop := forall id,
+Definition LifeInv (a : astate) (past : list obs) : Prop := forall id,
   events_for id (tr_events past) = life_events id (lifecycle_of id past) /\
   life_ok a id (lifecycle_of id past).
 
-Lemma LInv_init : LInv ainit [].
+Lemma LifeInv_init : LifeInv ainit [].
 Proof. intros id. simpl. split; [reflexivity|]. split; [intros e [] | destruct (N.eq_dec id 0); [left; auto | right; lia]]. Qed.
 
 Lemma lifecycle_snoc : forall id past x, lifecycle_of id (past ++ [x]) = life_step id (lifecycle_of id past) x.
@@ -404,8 +404,8 @@ Qed.
 Lemma events_for_one : forall id e, events_for id [e] = if ev_id e =? id then [e] else [].
 Proof. intros. unfold events_for. simpl. destruct (ev_id e =? id); reflexivity. Qed.
 
-Lemma LInv_step : forall a past o a' r ev,
-  AInv a -> LInv a past -> astep a o = (a', r, ev) -> LInv a' (past ++ [(o, r, ev)]).
+Lemma LifeInv_step : forall a past o a' r ev,
+  AInv a -> LifeInv a past -> astep a o = (a', r, ev) -> LifeInv a' (past ++ [(o, r, ev)]).
 Proof.
   intros a past o a' r ev Ha HL H id.
   destruct (HL id) as [Hev Hok].
@@ -493,15 +493,15 @@ Proof.
   - apply astep_other in H. destruct H as [-> ->]. simpl. rewrite app_nil_r. auto.
 Qed.
 
-Lemma run_LInv : forall ops a past, AInv a -> LInv a past ->
-  LInv (fst (run astep a ops)) (past ++ snd (run astep a ops)).
+Lemma run_LifeInv : forall ops a past, AInv a -> LifeInv a past ->
+  LifeInv (fst (run astep a ops)) (past ++ snd (run astep a ops)).
 Proof.
   induction ops as [|o r IH]; intros a past Ha HL.
   - simpl. rewrite app_nil_r. exact HL.
   - rewrite run_cons. cbn [fst snd].
     remember (astep a o) as x eqn:Hx. destruct x as [[a1 r1] ev1]. symmetry in Hx. cbn [fst snd].
     destruct (astep_inv a o _ _ _ Ha Hx) as [Ha' _].
-    pose proof (LInv_step a past o a1 r1 ev1 Ha HL Hx) as HL'.
+    pose proof (LifeInv_step a past o a1 r1 ev1 Ha HL Hx) as HL'.
     specialize (IH a1 _ Ha' HL'). rewrite <- app_assoc in IH. exact IH.
 Qed.
 
@@ -510,7 +510,7 @@ Theorem events_exact : forall ops id,
   events_for id (tr_events (snd (run astep ainit ops))) =
   life_events id (lifecycle_of id (snd (run astep ainit ops))).
 Proof.
-  intros ops id. pose proof (run_LInv ops ainit [] AInv_init LInv_init) as H. simpl in H.
+  intros ops id. pose proof (run_LifeInv ops ainit [] AInv_init LifeInv_init) as H. simpl in H.
   destruct (H id) as [H1 _]. exact H1.
 Qed.
 
@@ -556,7 +556,7 @@ Theorem visibility : forall ops,
              forall id, In id (map i_id l) <-> exists n, lifecycle_of id tr = LReady n).
 Proof.
   intros ops a tr.
-  pose proof (run_LInv ops ainit [] AInv_init LInv_init) as HL. simpl in HL. fold a tr in HL.
+  pose proof (run_LifeInv ops ainit [] AInv_init LifeInv_init) as HL. simpl in HL. fold a tr in HL.
   destruct (run_inv ops ainit AInv_init) as [Ha _]. fold a in Ha.
   assert (Hvis : forall id, (exists n, lifecycle_of id tr = LReady n) <->
               (exists e, In e (a_entries a) /\ a_id e = id /\ a_ready e = true)).
@@ -1015,4 +1015,168 @@ Proof.
     destruct (find_name n (services c)) as [[k i]|]; destruct (find _ (a_entries a)) as [e|]; try tauto.
     + inversion Hc; inversion Ha; subst. unfold a_id. auto.
     + inversion Hc; inversion Ha; subst. auto.
+Qed.
+
+(* run-level refinement: same results and signals for every operation sequence *)
+Lemma refinement_gen : forall g ops c a, cfg_wrap g = false -> Rel c a -> AInv a ->
+  snd (run (cstep g) c ops) = snd (run astep a ops) /\
+  Rel (fst (run (cstep g) c ops)) (fst (run astep a ops)).
+Proof.
+  intros g ops; induction ops as [|o r IH]; intros c a Hw HR HA.
+  - simpl. auto.
+  - rewrite !run_cons. cbn [fst snd].
+    destruct (refine_step g c a o Hw HR HA _ _ _ _ _ _ (cstep_eta g c o) (astep_eta a o)) as [HR' [Hr He]].
+    destruct (astep_inv a o _ _ _ HA (astep_eta a o)) as [HA' _].
+    destruct (IH _ _ Hw HR' HA') as [IH1 IH2].
+    split; [|exact IH2]. rewrite Hr, He, IH1. reflexivity.
+Qed.
+
+Theorem refinement : forall g ops, cfg_wrap g = false ->
+  snd (run (cstep g) cinit ops) = snd (run astep ainit ops).
+Proof. intros g ops Hw. apply (refinement_gen g ops cinit ainit Hw Rel_init AInv_init). Qed.
+
+(* a name is held by at most one entry of staging ∪ services, an id by at most one *)
+Theorem concrete_unique : forall g ops, cfg_wrap g = false ->
+  let c := fst (run (cstep g) cinit ops) in
+  NoDup (map (fun p => i_name (snd p)) (staging c ++ services c)) /\
+  NoDup (map fst (staging c ++ services c)).
+Proof.
+  intros g ops Hw c.
+  destruct (refinement_gen g ops cinit ainit Hw Rel_init AInv_init) as [_ HR]. fold c in HR.
+  destruct (run_inv ops ainit AInv_init) as [HA _].
+  set (a := fst (run astep ainit ops)) in *.
+  assert (Hkeys : NoDup (map fst (staging c ++ services c))).
+  { rewrite map_app. clear - HR. pose proof (r_nd_s _ _ HR) as H1. pose proof (r_nd_v _ _ HR) as H2.
+    pose proof (r_disj _ _ HR) as H3. induction (map fst (staging c)) as [|k l IH]; simpl; [exact H2|].
+    inversion H1; subst. constructor.
+    - intros Hc. apply in_app_or in Hc. destruct Hc as [Hc|Hc]; [tauto|]. apply (H3 k); [left; reflexivity | exact Hc].
+    - apply IH; auto. intros k' Hk'. apply H3. right; exact Hk'. }
+  split; [|exact Hkeys].
+  (* the abstract entries are a permutation of the concrete ones *)
+  assert (Hids : map a_id (abs_entries c) = map fst (staging c ++ services c)).
+  { rewrite abs_entries_eq, !map_app, !map_map. f_equal; apply map_ext_in; intros p Hp; unfold a_id; simpl.
+    - pose proof (r_keys_s _ _ HR) as K. unfold keys_ok in K. rewrite Forall_forall in K. apply K; exact Hp.
+    - pose proof (r_keys_v _ _ HR) as K. unfold keys_ok in K. rewrite Forall_forall in K. apply K; exact Hp. }
+  assert (HP : Permutation (a_entries a) (abs_entries c)).
+  { apply NoDup_Permutation.
+    - eapply NoDup_map_inv. apply (ai_ids _ HA).
+    - eapply NoDup_map_inv. rewrite Hids. exact Hkeys.
+    - apply (r_in _ _ HR). }
+  assert (Hn : map a_name (abs_entries c) = map (fun p => i_name (snd p)) (staging c ++ services c)).
+  { rewrite abs_entries_eq, !map_app, !map_map. reflexivity. }
+  rewrite <- Hn. eapply Permutation_NoDup; [apply Permutation_map; exact HP | apply (ai_names _ HA)].
+Qed.
+
+(* ---------- linearizability of the synchronised directory ---------- *)
+Theorem dir_linearizable : forall g, clean g ->
+  forall h, dir_history g h -> linearizable astep_r ainit h.
+Proof.
+  intros g [Hu Hw] h [tr [Hst [-> Hrun]]]. rewrite Hu in Hrun. destruct Hrun as [st' Hrun].
+  apply (lin_refine _ _ _ _ (cstep_r g) astep_r (fun c a => Rel c a /\ AInv a) cinit ainit).
+  - split; [apply Rel_init | apply AInv_init].
+  - intros c a o [HR HA]. unfold cstep_r, astep_r.
+    destruct (refine_step g c a o Hw HR HA _ _ _ _ _ _ (cstep_eta g c o) (astep_eta a o)) as [HR' [Hr _]].
+    destruct (astep_inv a o _ _ _ HA (astep_eta a o)) as [HA' _].
+    split; [split; assumption | exact Hr].
+  - eapply atomic_lin; eauto.
+Qed.
+
+(* ---------- the two defects of the pinned code ---------- *)
+Definition ex_info (n : string) : info :=
+  {| i_name := n; i_id := 0; i_machine := "m"%string; i_pid := 1; i_endpoints := ["e"%string]; i_session := ""%string; i_uid := ""%string |}.
+
+(* unsynchronised: two overlapping registrations of one name both pass the name check
+   before either inserts *)
+Definition unsync_witness : list (N * alabel dop dres) :=
+  [(1, LInv 1 (ORegister (ex_info "a"%string))); (2, LInv 2 (ORegister (ex_info "a"%string)));
+   (3, LLin 1); (4, LLin 2); (5, LLin 1); (6, LLin 2);
+   (7, LRet 1 (RId 1)); (8, LRet 2 (RId 2))].
+
+Lemma unsync_witness_runs : forall g, cfg_unsync g = true ->
+  exists st', urun g (cinit, []) unsync_witness = Some st'.
+Proof.
+  intros [u w] Hu. simpl in Hu. subst u. destruct w; vm_compute; eexists; reflexivity.
+Qed.
+
+Lemma unsync_witness_not_lin : lin_check astep_r dres_eqb ainit (ops_of (erase unsync_witness)) = false.
+Proof. vm_compute. reflexivity. Qed.
+
+Theorem unsync_refuted : forall g, cfg_unsync g = true ->
+  exists h, dir_history g h /\ ~ linearizable astep_r ainit h.
+Proof.
+  intros g Hu. exists (ops_of (erase unsync_witness)). split.
+  - exists unsync_witness. split; [|split; [reflexivity|]].
+    + simpl. repeat split; reflexivity.
+    + rewrite Hu. apply unsync_witness_runs; exact Hu.
+  - intros HL. apply (lin_check_complete _ _ _ astep_r dres_eqb) in HL.
+    + rewrite unsync_witness_not_lin in HL. discriminate.
+    + intros r. apply dres_eqb_spec. reflexivity.
+Qed.
+
+(* counter wrap: register/unregister 2^32-1 times, then register once more *)
+Lemma run_app : forall S (step : S -> dop -> out S) l1 l2 s,
+  run step s (l1 ++ l2) =
+  (fst (run step (fst (run step s l1)) l2), snd (run step s l1) ++ snd (run step (fst (run step s l1)) l2)).
+Proof.
+  intros S step l1; induction l1 as [|o l1 IH]; intros l2 s.
+  - simpl. destruct (run step s l2); reflexivity.
+  - rewrite <- app_comm_cons. rewrite !run_cons. rewrite IH. reflexivity.
+Qed.
+
+Fixpoint cycle (n : nat) (k : N) : list dop :=
+  match n with
+  | O => []
+  | S n' => ORegister (ex_info "a"%string) :: OUnregister (k + 1) :: cycle n' (k + 1)
+  end.
+
+Definition empty_at (k : N) : cstate := {| staging := []; services := []; lastID := k |}.
+
+Lemma cycle_run : forall g n k, (k + N.of_nat n < W32) ->
+  fst (run (cstep g) (empty_at k) (cycle n k)) = empty_at (k + N.of_nat n) /\
+  (n <> O -> exists ids, tr_ids (snd (run (cstep g) (empty_at k) (cycle n k))) = ids ++ [(k + N.of_nat n)]).
+Proof.
+  intros g n; induction n as [|n IH]; intros k Hk.
+  - simpl. rewrite N.add_0_r. split; [reflexivity | tauto].
+  - assert (Hk1 : (k + 1 < W32)) by lia.
+    assert (Hstep1 : cstep g (empty_at k) (ORegister (ex_info "a"%string)) =
+                     ({| staging := [((k + 1), with_id (ex_info "a"%string) (k + 1))]; services := []; lastID := (k + 1) |}, RId (k + 1), [])).
+    { simpl. unfold c_register, reg_check, reg_commit. simpl.
+      assert (E : (W32 <=? k + 1) = false) by (apply N.leb_gt; exact Hk1). rewrite E. rewrite andb_false_r.
+      rewrite (N.mod_small _ _ Hk1). reflexivity. }
+    assert (Hstep2 : cstep g {| staging := [((k + 1), with_id (ex_info "a"%string) (k + 1))]; services := []; lastID := (k + 1) |}
+                       (OUnregister (k + 1)) = (empty_at (k + 1), ROk, [])).
+    { simpl. unfold c_unregister. simpl. rewrite N.eqb_refl. reflexivity. }
+    cbn [cycle]. rewrite run_cons, Hstep1. cbn [fst snd]. rewrite run_cons, Hstep2. cbn [fst snd].
+    assert (Hk' : (k + 1 + N.of_nat n < W32)) by lia.
+    destruct (IH (k + 1) Hk') as [IH1 IH2].
+    replace (k + N.of_nat (S n)) with (k + 1 + N.of_nat n) by lia.
+    split; [exact IH1|]. intros _. rewrite !tr_ids_cons. cbn [app].
+    destruct n as [|n'].
+    + exists []. simpl. rewrite N.add_0_r. reflexivity.
+    + destruct (IH2 ltac:(discriminate)) as [ids Hids]. exists ((k + 1) :: ids). rewrite Hids. reflexivity.
+Qed.
+
+Lemma tr_ids_app : forall t1 t2, tr_ids (t1 ++ t2) = tr_ids t1 ++ tr_ids t2.
+Proof. intros. unfold tr_ids. apply flat_map_app. Qed.
+
+Theorem wrap_refuted : forall g, cfg_wrap g = true ->
+  exists ops, ~ StronglySorted N.lt (tr_ids (snd (run (cstep g) cinit ops))).
+Proof.
+  intros g Hw. set (n := N.to_nat (W32 - 1)).
+  exists (cycle n 0 ++ [ORegister (ex_info "a"%string)]).
+  assert (Hn : (0 + N.of_nat n = W32 - 1)) by (unfold n; rewrite N2Nat.id; reflexivity).
+  assert (Hlt : (0 + N.of_nat n < W32)) by (rewrite Hn; unfold W32; lia).
+  destruct (cycle_run g n 0 Hlt) as [H1 H2].
+  assert (Hn0 : n <> O) by (unfold n; intros Hc; apply (f_equal N.of_nat) in Hc; rewrite N2Nat.id in Hc; discriminate).
+  destruct (H2 Hn0) as [ids Hids].
+  change cinit with (empty_at 0). rewrite run_app. cbn [snd]. rewrite H1.
+  rewrite tr_ids_app. rewrite Hids, Hn.
+  assert (Hlast : cstep g (empty_at (W32 - 1)) (ORegister (ex_info "a"%string)) =
+                  ({| staging := [(0, with_id (ex_info "a"%string) 0)]; services := []; lastID := 0 |}, RId 0, [])).
+  { simpl. unfold c_register, reg_check, reg_commit. simpl. rewrite Hw. reflexivity. }
+  rewrite run_cons, Hlast. cbn [fst snd run]. rewrite tr_ids_cons. cbn [tr_ids flat_map app].
+  intros Hs. rewrite <- app_assoc in Hs. cbn [app] in Hs.
+  clear - Hs. induction ids as [|x ids IH]; simpl in Hs.
+  - inversion Hs as [|? ? _ Hf]; subst. inversion Hf as [|? ? Hlt _]; subst. unfold W32 in Hlt. lia.
+  - inversion Hs; subst. auto.
 Qed.
